@@ -201,6 +201,8 @@ def run(chk):
         '; a variant draws: realisation of every edge (explicit --step | --output-file/--file | --output-file/--glob), when in {by_dependencies, always, never}, '
         'a private input file dependency (p=.3), per step command true | sleep 30-150 ms | false | sleep+false | terminated by a signal (SEGV/KILL/TERM/ABRT, p=.1, '
         'half of them after writing the output file), pool in {1,2,4,n}, one or two consecutive runs; '
+        'SHARED OUTPUTS (seed C10-4 first): one path declared as output by 2-3 steps and read by a third through --file/--glob/--glob_items/--regex/--regex_items/--lines/--line_items, '
+        'producers ok/failing/slow, each pipeline run 3 times; the consumer must wait for EVERY producer and not run after ANY failed (producers of a path = a set computed by the harness); '
         'HISTORIES in which the pipeline is EDITED between runs (run1 -> edit -> run2 -> producer fails -> run3; first the minimised C10-3 scenario): for every edge '
         'realisation (step, file, glob, glob_items, regex, regex_items, lines, line_items) x {producer step added, output added to an existing step, dependency added to '
         'an existing consumer} after state was recorded, judged per run on the pipeline as defined at that stage ("reads" from declared patterns/paths by the harness), '
@@ -215,7 +217,7 @@ def run(chk):
     chk.extra['exhaustive_part'] = 'graph shapes: all labelled DAGs on <= 4 steps' if not quick else 'all labelled DAGs on <= 3 steps'
     model_cycle_test(ctx, chk, quick)
     corp = corpus()
-    hist = sh.corpus() + sh.gen_histories(chk.rng, quick)
+    hist = sh.corpus() + sh.gen_shared_outputs(chk.rng, quick) + sh.gen_histories(chk.rng, quick)
     sc.run_family(ctx, 'corpus/plain', corp, OWN, hook=False)
     sc.run_family(ctx, 'history/plain', hist, OWN, hook=False, shrink=False)
     if ctx.xvc_hook:
